@@ -254,3 +254,38 @@ def r17_4(ctx):
     ctx.require(res == [Sym("r1"), Sym("r2"), Sym("r3")], "collector:order", f"results collected as {res!r} from frames {[n for n, _ in seq]}; must be every item frame in arrival order", func=f)
     ctx.require(completions == [("scanCompleteHandler", (Sym("done"),))], "collector:completion", f"completions: {completions!r}; only the completion frame completes the wait", func=f)
     del res[:]
+
+
+@rule("R17.5", ["C17", "C13", "C06"], "T-FUN", floor=2)
+def r17_5(ctx):
+    """Callback registry: identifiers handed out by add_callback are unique among the callbacks currently registered -
+    over the sequence add a, add b, remove a, add c (with colliding and with distinct hashes) the registry ends up holding
+    exactly b and c: a new registration never replaces a live one (the application's callback handler would silently stop
+    receiving frames), and remove_callback removes exactly the one registered under that identifier."""
+    repo = ctx.repo
+    add = repo.func(f"{EZ}:EZSP.add_callback")
+    rem = repo.func(f"{EZ}:EZSP.remove_callback")
+    ctx.fn(add)
+    cls = repo.cls(EZ, "EZSP")
+    for label, hashes in (("colliding-hashes", {"cb_a": 7, "cb_b": 7, "cb_c": 7}), ("distinct-hashes", {"cb_a": 3, "cb_b": 1, "cb_c": 2}),
+                          ("adjacent-hashes", {"cb_a": 0, "cb_b": 1, "cb_c": 1})):
+        px = PX(repo, models=[("hash", lambda px_, t, a, k, fr: hashes[a[0].tag])], inline=same_class(stop=("stack_status_callback",)))
+        px.inline.root = add
+
+        def entry():
+            me = self_obj(cls, {"_callbacks": {}})
+            px.top_frame = None
+            ia = px.call_function(add, me, [Sym("cb_a")], {}, None)
+            ib = px.call_function(add, me, [Sym("cb_b")], {}, None)
+            px.call_function(rem, me, [ia], {}, None)
+            ic = px.call_function(add, me, [Sym("cb_c")], {}, None)
+            return (ia, ib, ic, dict(me.fields["_callbacks"]))
+
+        for p in px._run(entry):
+            if p.terminal != "return":
+                ctx.violation(f"registry:{label}", f"{label}: {p.value!r}", func=add, trace=p.trace())
+                continue
+            ia, ib, ic, reg = p.value
+            ok = ib != ic and sorted(v.tag for v in reg.values()) == ["cb_b", "cb_c"] and reg.get(ib) == Sym("cb_b") and reg.get(ic) == Sym("cb_c")
+            ctx.require(ok, f"registry:{label}", f"{label}: add a -> {ia!r}, add b -> {ib!r}, remove a, add c -> {ic!r}; registry now {reg!r} (must hold exactly b and c "
+                        "under different identifiers)", func=add, trace=p.trace())
